@@ -1,2 +1,11 @@
+"""Engine-B part of C12: four_neighbor_indices for unbounded height, width, coordinates."""
+import os
+
+from .. import common
+from ..eb import runner
+
+HF = os.path.join(common.VERIF, "vlib", "eb", "harness", "h_c14.py")
+
+
 def run_into(rep, tier):
-    pass
+    runner.run_conditions(rep, [runner.Cond(HF, "h_four_neighbor_indices", 40 if tier == "quick" else 200, key="four_neighbor_indices")])
